@@ -68,6 +68,9 @@ def correspondence(ctx):
     progs = list(PROGRAMS) if ctx.tier != 'quick' else ['busy', 'printing', 'swallow-exception', 'swallow-exception-printing', 'swallow-base', 'convert-exit', 'finish-late']
     scheds = ['N', 'A', 'B', 'C']
     cases = [{'name': p, 'program': PROGRAMS[p], 'schedule': s, 'allowed': 0.3} for p in progs for s in scheds]
+    # the same, issued while the grading script is itself handling an exception (try: int('x') / except ValueError: run(...))
+    cases += [{'name': p, 'program': PROGRAMS[p], 'schedule': s, 'allowed': 0.3, 'in_except': True}
+              for p in (progs if ctx.tier != 'quick' else ['busy', 'printing', 'finish-late']) for s in ('N', 'A', 'B')]
     res = vlib.run_impl('c14_impl.py', {'cases': cases}, timeout=1200)
     es, ts = site_ids()
     items = []
@@ -76,7 +79,7 @@ def correspondence(ctx):
             ctx.violation('hang:%s' % case['schedule'], {'case': case, 'why': 'run(threaded=True) had not returned 25 s after a %.1f s limit'
                                                         % case['allowed']})
             break
-        ctx.case((case['name'], case['schedule']), nontrivial=True,
+        ctx.case((case['name'], case['schedule'], bool(case.get('in_except'))), nontrivial=True,
                  sample={'program': case['name'], 'schedule': case['schedule'],
                          'observed': {k: r[k] for k in ('wall', 'exception_at_return', 'labels_at_end', 'next_output', 'hook_log')}}
                  if case['name'] == 'busy' else None)
